@@ -476,7 +476,46 @@ func newPopulated(ti *TypeInfo, seed uint64) protoreflect.Message {
 		return m
 	}
 	populate(rng, ti.Desc, m, 0)
+	if (seed>>40)&0xff == 11 {
+		deepen(m, []int{300, 800, 1500}[(seed>>48)%3])
+	}
 	return m
+}
+
+// deepen turns a value of a directly recursive message type (a singular field of its own type,
+// in or outside a oneof) into a chain of that many levels: documents hundreds of objects deep (1 in
+// 256 values of such a type), where recursion guards, depth counters and stack-sized buffers live.
+// Deeper still (thousands of levels, several tasks at once) was tried and costs more than a third of
+// the exploration budget for one kind of defect; see DESIGN §10.3, thirteenth wave.
+func deepen(m protoreflect.Message, levels int) bool {
+	md := m.Descriptor()
+	var self protoreflect.FieldDescriptor
+	fields := md.Fields()
+	for i := 0; i < fields.Len(); i++ {
+		fd := fields.Get(i)
+		if fd.Kind() == protoreflect.MessageKind && !fd.IsList() && !fd.IsMap() && fd.Message().FullName() == md.FullName() {
+			self = fd
+			break
+		}
+	}
+	if self == nil {
+		return false
+	}
+	cur := m
+	for i := 0; i < levels; i++ {
+		next := cur.NewField(self).Message()
+		// something small in every level that is not the recursive member itself
+		for j := 0; j < fields.Len(); j++ {
+			fd := fields.Get(j)
+			if fd != self && fd.Kind() == protoreflect.StringKind && !fd.IsList() && fd.ContainingOneof() == nil {
+				next.Set(fd, protoreflect.ValueOfString("d"))
+				break
+			}
+		}
+		cur.Set(self, protoreflect.ValueOfMessage(next))
+		cur = next
+	}
+	return true
 }
 
 // ---------------------------------------------------------------- operations
